@@ -3,7 +3,7 @@
    error and produces exactly the expected logical lines.  Proof: symbolic execution of `run` on states of
    the shape `ST` (finished lines, one current line, one entry on the current_line stack), with effect
    lemmas for the primitives and an induction over the syntax tree for the statement-list loop. *)
-From PasfmtVerif Require Import Model.Fragment Proofs.ParserKernelProofs Proofs.ParserGrammarProofs
+From PasfmtVerif Require Import Model.Fragment Model.DirectiveTree Proofs.DirectiveTreeProofs Proofs.ParserKernelProofs Proofs.ParserGrammarProofs
   Proofs.ParserGrammarTypesProofs Proofs.ParserGrammarCoverProofs Proofs.ParserGrammarEofProofs.
 Local Open Scope nat_scope.
 
@@ -917,6 +917,7 @@ Theorem fragment_parse_pass ss :
   let T := render_prog ss in
   let pass := seq 0 (length T) in
   ps_err pass (parse_pass pass [] T []) = None /\ pidx pass (parse_pass pass [] T []) = length pass
+  /\ ps_toks pass (parse_pass pass [] T []) = T
   /\ exists el, ll_toks el = [] /\ pass_lines pass (parse_pass pass [] T []) = expected_prog ss ++ [el].
 Proof.
   intros T pass.
@@ -939,7 +940,7 @@ Proof.
   unfold parse_pass. set (f := run_fuel pass) in *. clearbody f.
   destruct (prog_run T P ss f _ _ _ _ _ H0 Ht0 Htb HtD HtE Ln Hf) as (mc' & last' & H).
   fold pass in H. set (s := run pass [] f C_top (ps_init pass T [])) in *.
-  split; [exact (ST_err_none T _ _ _ _ _ _ _ _ _ _ H)|]. split.
+  split; [exact (ST_err_none T _ _ _ _ _ _ _ _ _ _ H)|]. split; [|split; [exact (ST_toks T _ _ _ _ _ _ _ _ _ _ H)|]].
   - transitivity (length T); [exact (ST_pidx T _ _ _ _ _ _ _ _ _ _ H)|unfold pass; rewrite seq_length; reflexivity].
   - exists (mkLine (lm_type mc') (lm_level mc') (lm_parent mc') []). split; [reflexivity|].
     etransitivity; [exact (pass_lines_ST T _ _ _ _ _ _ _ _ _ _ H)|]. f_equal.
@@ -952,3 +953,157 @@ Proof.
     { unfold expected_prog. cbv zeta. cbn [map meta_of ll_parent ll_level ll_type]. rewrite map_app. reflexivity. }
     rewrite EL, EM. apply rebuild_lines.
 Qed.
+
+(* ================================================================== *)
+(* parse_file on the fragment *)
+Definition nonempty_line (l : lline) : bool := match ll_toks l with [] => false | _ :: _ => true end.
+
+Lemma lline_eqb_false_toks a b : ll_toks a <> ll_toks b -> lline_eqb a b = false.
+Proof.
+  intros H. unfold lline_eqb. destruct (nat_list_eqb (ll_toks a) (ll_toks b)) eqn:E; [|apply andb_false_r].
+  apply nat_list_eqb_eq in E. contradiction.
+Qed.
+Lemma index_of_line_none l : forall acc k, (forall a, In a acc -> ll_toks a <> ll_toks l) -> index_of_line l acc k = None.
+Proof.
+  induction acc as [|a r IH]; intros k H; cbn; [reflexivity|].
+  rewrite lline_eqb_false_toks by (intros E; apply (H a (or_introl eq_refl)); symmetry; exact E).
+  apply IH. intros x Hx. apply H. right. exact Hx.
+Qed.
+(* consolidation of lines without parents and without a shared token: the non-empty lines, in order *)
+Lemma consolidate_fresh : forall pl pre mapped,
+  NoDup (concat (map ll_toks (pre ++ pl))) -> Forall (fun l => ll_toks l = [] \/ ll_parent l = None) pl ->
+  fst (fold_left consolidate_step pl (filter nonempty_line pre, mapped)) = filter nonempty_line pre ++ filter nonempty_line pl.
+Proof.
+  induction pl as [|x pl IH]; intros pre mapped Hnd Hp; cbn [fold_left filter]; [rewrite app_nil_r; reflexivity|].
+  pose proof (Forall_inv Hp) as Hx. pose proof (Forall_inv_tail Hp) as Hp'.
+  assert (Hnd' : NoDup (concat (map ll_toks ((pre ++ [x]) ++ pl)))) by (rewrite <- app_assoc; exact Hnd).
+  cbn [consolidate_step]. destruct (ll_toks x) as [|t r] eqn:Et.
+  - assert (Nx : nonempty_line x = false) by (unfold nonempty_line; rewrite Et; reflexivity).
+    specialize (IH (pre ++ [x]) (mapped ++ [None]) Hnd' Hp').
+    rewrite filter_app in IH. cbn [filter] in IH. rewrite Nx, app_nil_r in IH. rewrite Nx. exact IH.
+  - assert (Nx : nonempty_line x = true) by (unfold nonempty_line; rewrite Et; reflexivity).
+    destruct Hx as [Hx|Hx]; [congruence|]. rewrite Hx.
+    assert (Ex : mkLine (ll_type x) (ll_level x) None (t :: r) = x) by (destruct x; cbn in *; subst; reflexivity).
+    rewrite Ex, Nx.
+    rewrite index_of_line_none.
+    + specialize (IH (pre ++ [x]) (mapped ++ [Some (length (filter nonempty_line pre))]) Hnd' Hp').
+      rewrite filter_app in IH. cbn [filter] in IH. rewrite Nx in IH.
+      rewrite IH, <- app_assoc. reflexivity.
+    + intros a Ha E. apply filter_In in Ha. destruct Ha as [Ha _].
+      rewrite map_app, concat_app in Hnd. cbn [map concat] in Hnd.
+      apply (nodup_app_disj _ _ t Hnd).
+      * apply in_concat. exists (ll_toks a). split; [apply in_map, Ha|]. rewrite E, Et. left. reflexivity.
+      * apply in_or_app. left. rewrite Et. left. reflexivity.
+Qed.
+Lemma consolidate_fresh0 pl :
+  NoDup (concat (map ll_toks pl)) -> Forall (fun l => ll_toks l = [] \/ ll_parent l = None) pl ->
+  consolidate_pass_lines [] pl = filter nonempty_line pl.
+Proof. intros H1 H2. unfold consolidate_pass_lines. apply (consolidate_fresh pl [] [] H1 H2). Qed.
+
+Lemma expected_props : forall ss d k, Forall (fun l => nonempty_line l = true /\ ll_parent l = None) (expected d k ss).
+Proof.
+  induction ss as [|r IH|r IH|b IHb r IHr]; intros d k; cbn [expected]; try constructor; try (split; reflexivity); try apply IH.
+  cbv zeta. apply Forall_app. split; [apply IHb|]. constructor; [split; reflexivity|apply IHr].
+Qed.
+Lemma expected_prog_props ss : Forall (fun l => nonempty_line l = true /\ ll_parent l = None) (expected_prog ss).
+Proof.
+  unfold expected_prog. cbv zeta. constructor; [split; reflexivity|]. apply Forall_app. split; [apply expected_props|].
+  repeat (constructor; [split; reflexivity|]). constructor.
+Qed.
+Lemma filter_all {A} (p : A -> bool) l : Forall (fun x => p x = true) l -> filter p l = l.
+Proof. induction 1 as [|x l Hx _ IH]; cbn; [reflexivity|]. rewrite Hx, IH. reflexivity. Qed.
+
+Lemma cement_plain t : plain t -> cement t = t.
+Proof. destruct t; cbn; try reflexivity; contradiction. Qed.
+Lemma upd_nth_id {A} (f : A -> A) i : forall l, (forall x, In x l -> f x = x) -> upd_nth i f l = l.
+Proof.
+  revert i. induction i as [|i IH]; intros [|a l] H; cbn; try reflexivity.
+  - rewrite H by (left; reflexivity). reflexivity.
+  - rewrite IH; [reflexivity|]. intros x Hx. apply H. right. exact Hx.
+Qed.
+Lemma cement_fold_plain T : Forall plain T -> forall pass, fold_left (fun ts p => upd_nth p cement ts) pass T = T.
+Proof.
+  intros P. induction pass as [|p r IH]; cbn [fold_left]; [reflexivity|].
+  rewrite upd_nth_id; [exact IH|]. intros x Hx. apply cement_plain. exact (proj1 (Forall_forall _ _) P x Hx).
+Qed.
+Lemma directive_lines_plain : forall T k attr lv, Forall plain T -> directive_lines T k attr lv = [].
+Proof.
+  induction T as [|t T IH]; intros k attr lv P; cbn [directive_lines]; [reflexivity|].
+  pose proof (Forall_inv P) as Pt. pose proof (Forall_inv_tail P) as P'.
+  destruct (existsb (Nat.eqb k) attr); [apply IH, P'|].
+  destruct t; try contradiction; apply IH, P'.
+Qed.
+Lemma plain_no_directive T : Forall plain T -> Forall (fun ty => cd_kind ty = None) T.
+Proof. intros P. eapply Forall_impl; [|exact P]. intros t Ht. destruct t; try reflexivity; contradiction. Qed.
+
+Lemma consolidate_nil_r X : consolidate_pass_lines X [] = X.
+Proof. reflexivity. Qed.
+
+(* THE THEOREM (stage 1): for every program of the fragment — any nesting depth, any number of
+   statements — the closed model of parse_file ends without error and returns EXACTLY the expected lines:
+   every statement on its own line one level deeper than the `begin` line of its block, `end ;` at the
+   level of its `begin`, `end .` and the single Eof line (holding only the Eof token) at level 0, no parents *)
+Theorem fragment_parse_file ss :
+  let r := parse_file_model (render_prog ss) [] in
+  r_err r = None /\ r_lines r = expected_prog ss /\ r_toks r = render_prog ss.
+Proof.
+  set (T := render_prog ss). pose proof (render_prog_plain ss) as P. fold T in P.
+  unfold parse_file_model. rewrite (no_directives_single_identity_pass T (plain_no_directive T P)).
+  unfold parse_file_with. cbn [parse_passes].
+  destruct (fragment_parse_pass ss) as (He & Hpi & Htoks & el & Hel & Hpl). fold T in He, Hpi, Htoks, Hpl.
+  set (pass := seq 0 (length T)) in *.
+  pose proof (parse_pass_lines_wf pass [] T [] (increasing_seq 0 (length T))) as (_ & Hnd & _).
+  set (s := parse_pass pass [] T []) in *. clearbody s.
+  rewrite He.
+  rewrite Htoks, (cement_fold_plain T P pass), (directive_lines_plain T 0 _ 0%N P).
+  cbn [r_err r_lines r_toks]. split; [reflexivity|]. split; [|reflexivity].
+  rewrite consolidate_nil_r.
+  rewrite consolidate_fresh0.
+  - rewrite Hpl, filter_app. cbn [filter]. unfold nonempty_line at 2. rewrite Hel, app_nil_r.
+    apply filter_all. eapply Forall_impl; [|apply expected_prog_props]. intros l [H _]. exact H.
+  - exact Hnd.
+  - rewrite Hpl. apply Forall_app. split.
+    + eapply Forall_impl; [|apply expected_prog_props]. intros l [_ H]. right. exact H.
+    + constructor; [left; exact Hel|constructor].
+Qed.
+
+(* ---------------- the well-formedness clauses, read off the expected lines *)
+Lemma expected_no_eof : forall ss d k, Forall (fun l => ll_type l <> LLT_Eof) (expected d k ss).
+Proof.
+  induction ss as [|r IH|r IH|b IHb r IHr]; intros d k; cbn [expected]; try constructor; try discriminate; try apply IH.
+  cbv zeta. apply Forall_app. split; [apply IHb|]. constructor; [discriminate|apply IHr].
+Qed.
+Corollary fragment_no_parents ss :
+  Forall (fun l => ll_parent l = None) (r_lines (parse_file_model (render_prog ss) [])).
+Proof.
+  destruct (fragment_parse_file ss) as (_ & Hl & _). rewrite Hl.
+  eapply Forall_impl; [|apply expected_prog_props]. intros l [_ H]. exact H.
+Qed.
+Corollary fragment_single_eof_line ss :
+  let r := parse_file_model (render_prog ss) [] in
+  exists pre, r_lines r = pre ++ [mkLine LLT_Eof 0%N None [S (S (S (length (render ss))))]]
+    /\ Forall (fun l => ll_type l <> LLT_Eof) pre
+    /\ nth_error (render_prog ss) (S (S (S (length (render ss))))) = Some RTT_Eof
+    /\ length (render_prog ss) = S (S (S (S (length (render ss))))).
+Proof.
+  intros r. destruct (fragment_parse_file ss) as (_ & Hl & _). fold r in Hl.
+  exists (mkLine LLT_Unknown 0%N None [0] :: expected 1 1 ss
+          ++ [mkLine LLT_Unknown 0%N None [S (length (render ss)); S (S (length (render ss)))]]).
+  split; [|split; [|split]].
+  - rewrite Hl. unfold expected_prog. cbv zeta. cbn [app Nat.add]. rewrite <- app_assoc. cbn [app].
+    replace (length (render ss) + 1) with (S (length (render ss))) by lia.
+    replace (length (render ss) + 2) with (S (S (length (render ss)))) by lia. reflexivity.
+  - constructor; [discriminate|]. apply Forall_app. split; [apply expected_no_eof|]. constructor; [discriminate|constructor].
+  - change (nth_error (render ss ++ [tEnd; tDot; RTT_Eof]) (S (S (length (render ss)))) = Some RTT_Eof).
+    rewrite nth_error_app2 by lia. replace (S (S (length (render ss))) - length (render ss)) with 2 by lia. reflexivity.
+  - apply render_prog_length.
+Qed.
+
+(* non-vacuity: a program with three nesting levels, all statement forms *)
+Example fragment_example :
+  let ss := SSimple (SBlock (SAssign (SBlock SNil (SSimple SNil))) (SAssign SNil)) in
+  r_lines (parse_file_model (render_prog ss) []) = expected_prog ss
+  /\ map (fun l => (ll_level l, ll_toks l)) (expected_prog ss)
+     = [(0%N, [0]); (1%N, [1; 2]); (1%N, [3]); (2%N, [4; 5; 6; 7]); (2%N, [8]); (2%N, [9; 10]); (2%N, [11; 12]);
+        (1%N, [13; 14]); (1%N, [15; 16; 17; 18]); (0%N, [19; 20]); (0%N, [21])].
+Proof. split; vm_compute; reflexivity. Qed.
